@@ -71,7 +71,15 @@ class Evaluator:
         if "str" in c:
             return ("str", c["str"])
         if "promoted" in c and c["promoted"] < len(self.f.promoted):
-            for it in self.f.promoted[c["promoted"]]:
+            items = self.f.promoted[c["promoted"]]
+            vs = [it for it in items if "variant" in it]
+            if len(vs) >= 2 and len(vs) == len(items):
+                # a nested constant such as `&Some(GroupState::Active)`: the promoted body builds the payload first, the wrapper last
+                v = ("variant", last_seg(vs[0]["agg"]), vs[0]["variant"], ())
+                for it in vs[1:]:
+                    v = ("variant", last_seg(it["agg"]), it["variant"], (v,))
+                return v
+            for it in items:
                 if "variant" in it:
                     return ("variant", last_seg(it["agg"]), it["variant"], ())
                 if "int" in it:
